@@ -156,6 +156,27 @@ func (px *pathCtx) flush() {
 func (px *pathCtx) check(extra *smt.Term, model bool) (smt.Result, map[string]uint64) {
 	px.flush()
 	r, m := px.w.solver.Check(extra, model)
+	if r == smt.Unknown && px.eng.FallbackSolver != "" {
+		// second opinion from another solver on the complete path condition
+		if px.w.fallback == nil {
+			fb, err := smt.NewSolver(px.eng.FallbackSolver, px.eng.QueryTimeoutMs*3)
+			if err == nil {
+				px.w.fallback = fb
+			}
+		}
+		if fb := px.w.fallback; fb != nil {
+			fb.Reset()
+			for _, c := range px.pc {
+				fb.Assert(c)
+			}
+			r2, m2 := fb.Check(extra, model)
+			px.w.fallbackUsed++
+			if r2 != smt.Unknown {
+				px.w.fallbackDecided++
+				return r2, m2
+			}
+		}
+	}
 	return r, m
 }
 
@@ -383,8 +404,11 @@ func (px *pathCtx) where(fr *frame) string {
 // ------------------------------------------------------------------------
 
 type worker struct {
-	id     int
-	solver *smt.Solver
+	id              int
+	solver          *smt.Solver
+	fallback        *smt.Solver
+	fallbackUsed    int
+	fallbackDecided int
 }
 
 // HarnessConfig controls exploration of one harness function.
@@ -417,6 +441,7 @@ type HarnessResult struct {
 	SolverTime  time.Duration
 	Wall        time.Duration
 	Truncated   bool
+	Fallback    int
 	Samples     []string
 	Incomplete  []string // messages of unwind/unsupported/internal paths
 	Asserts     int
@@ -530,7 +555,12 @@ func (e *Engine) Explore(cfg HarnessConfig) *HarnessResult {
 		res.Queries += w.solver.Queries
 		res.QSat += w.solver.NSat
 		res.QUnsat += w.solver.NUnsat
-		res.QUnknown += w.solver.NUnknown
+		res.QUnknown += w.solver.NUnknown - w.fallbackDecided
+		res.Fallback += w.fallbackDecided
+		if w.fallback != nil {
+			res.SolverTime += w.fallback.Time
+			w.fallback.Close()
+		}
 		res.SolverErrs += w.solver.Errors
 		res.SolverTime += w.solver.Time
 		if w.solver.Errors > 0 {
